@@ -824,7 +824,7 @@ func leanList(xs []string, prefix string) string {
 
 func emit(src string, infos []*methodInfo, fields []string, constructors []string, lockField string, failure string) string {
 	var b strings.Builder
-	b.WriteString("/-\n  GENERATED by translate/locktable from " + src + " — do not edit.\n")
+	b.WriteString("/-\n  GENERATED by translate/locktable from " + filepath.Base(src) + " (in the library tree under check) — do not edit.\n")
 	b.WriteString("  One row per method with receiver *" + structName + " (exported and unexported), see Model/Lock.lean\n  (MethodInfo) for the meaning of the columns.\n-/\n")
 	b.WriteString("import UtreexoVerif.Model.Lock\n\nnamespace UtreexoVerif.Gen.LockTable\nopen UtreexoVerif.Model.Lock\n\n")
 	if failure != "" {
